@@ -1444,7 +1444,10 @@ func (r *seqRun) stepReaddir(name string, op Op, hr handleRef, base *mnode) {
 			return
 		}
 		res := r0.(*nfsclient.ReaddirRes)
-		if r.sc.Kind == "C26" && isDir {
+		if r.faulted() && res.Status != 0 {
+			return // a listing hit by an injected backend error may fail
+		}
+		if r.sc.Kind == "C26" && isDir && !r.faulted() {
 			// size of a resok holding exactly the next entry: post_op_attr(4+84) + verf(8) + entry + list end(4) + eof(4)
 			next := ""
 			for _, n := range r.model.children(hr.path) {
